@@ -382,8 +382,9 @@ func (enc *encryptInfo) EncryptBytes(ref Reference, buf []byte) ([]byte, error) 
 		if err != nil {
 			return nil, err
 		}
-		c.XORKeyStream(buf, buf)
-		return buf, nil
+		out := make([]byte, len(buf))
+		c.XORKeyStream(out, buf)
+		return out, nil
 	default:
 		panic("unknown cipher")
 	}
